@@ -1275,6 +1275,7 @@ func shapeRules(c *core.Ctx) {
 			return 0, nil
 		}
 		for _, p := range ps {
+			moved := 0 // octets moved on this path: a primitive moves its width once
 			for _, e := range p.Events {
 				call, ok := e.Instr.(*ssa.Call)
 				if !ok || e.Kind != paths.EvInstr || calleeName(call) != "encoding/binary."+name {
@@ -1292,10 +1293,20 @@ func shapeRules(c *core.Ctx) {
 						t = pt.Elem()
 					}
 					if sz := basicSize(t); sz > 0 {
+						moved += sz
+						if moved != sz {
+							return -moved, nil // a second transfer on the same path
+						}
 						if size != 0 && size != sz {
 							return -1, nil
 						}
 						size = sz
+					}
+					// a read primitive answers the value it read: the result is a load of the variable handed to binary.Read
+					if al, isAl := mi.X.(*ssa.Alloc); isAl && name == "Read" && len(p.Results) == 1 {
+						if ld, isLd := p.Results[0].(*ssa.UnOp); !isLd || ld.Op != token.MUL || ld.X != ssa.Value(al) {
+							return -1, nil
+						}
 					}
 				}
 				order = orderSource(e.Resolve(call.Call.Args[1]))
